@@ -190,6 +190,9 @@ func genMapHistory(rng *rand.Rand, nh, nkeys, n int) []mact {
 			k := rk()
 			delete(known[h], pathKey(append(append([]string{}, p...), k)))
 			acts = append(acts, mact{Op: "set", H: h, P: p, K: k, N: randLeaf(rng)})
+			if rng.Intn(2) == 0 { // read the same key back through some getter
+				acts = append(acts, mact{Op: "get", H: h, P: p, K: k, G: allGetters[rng.Intn(len(allGetters))]})
+			}
 		case x < 40:
 			h := rh()
 			p := rp(h)
@@ -250,4 +253,54 @@ func normNode(x interface{}) interface{} {
 		return v
 	}
 	return x
+}
+
+// matrixHistory: every getter on every leaf kind (and on an absent key, a nested map, a cloned and a
+// merged copy), so that each getter x kind combination is judged in every run.
+func matrixHistory(rng *rand.Rand) []mact {
+	ints := func(xs ...int) []interface{} {
+		r := make([]interface{}, len(xs))
+		for i, x := range xs {
+			r[i] = gmap{"t": "i", "i": x}
+		}
+		return r
+	}
+	leaves := []gmap{
+		{"t": "i", "i": 0}, {"t": "i", "i": 1}, {"t": "i", "i": -1}, {"t": "i", "i": 255}, {"t": "i", "i": -32768},
+		{"t": "i", "i": 65536}, {"t": "i", "i": 999999999}, {"t": "i", "i": -999999999},
+		strNode(""), strNode("0"), strNode("42"), strNode("-7"), strNode("+15"), strNode("007"), strNode("true"),
+		strNode("TRUE"), strNode("tRuE"), strNode("x"), strNode("hello world"),
+		{"t": "b", "b": true}, {"t": "b", "b": false}, {"t": "n"}, {"t": "u", "u": 0}, {"t": "u", "u": 86400},
+		{"t": "l", "e": []interface{}{}}, {"t": "l", "e": ints(5)}, {"t": "l", "e": ints(0, -3, 70000, 1)},
+		{"t": "l", "e": []interface{}{gmap{"t": "i", "i": 5}, strNode("12"), gmap{"t": "b", "b": true}, gmap{"t": "n"}, strNode("zz")}},
+		randLeaf(rng), randLeaf(rng), randLeaf(rng),
+	}
+	var acts []mact
+	keys := []string{}
+	for i, n := range leaves {
+		k := "k" + string(rune('A'+i%26)) + string(rune('0'+i/26))
+		keys = append(keys, k)
+		acts = append(acts, mact{Op: "set", H: 1, P: []string{}, K: k, N: n})
+	}
+	acts = append(acts, mact{Op: "mkmap", H: 1, P: []string{}, K: "sub"})
+	keys = append(keys, "sub", "missing")
+	acts = append(acts, mact{Op: "clone", H: 1, To: 2})
+	acts = append(acts, mact{Op: "merge", B: 3, D: 1, To: 3})
+	for _, k := range keys {
+		for _, g := range allGetters {
+			acts = append(acts, mact{Op: "get", H: rng.Intn(3) + 1, P: []string{}, K: k, G: g})
+		}
+	}
+	// the same getters below a nested map
+	acts = append(acts, mact{Op: "mkmap", H: 2, P: []string{}, K: "in"})
+	for i, n := range leaves {
+		if i%3 == 0 {
+			acts = append(acts, mact{Op: "set", H: 2, P: []string{"in"}, K: keys[i], N: n})
+			acts = append(acts, mact{Op: "get", H: 2, P: []string{"in"}, K: keys[i], G: allGetters[rng.Intn(len(allGetters))]})
+		}
+	}
+	for _, g := range allGetters {
+		acts = append(acts, mact{Op: "get", H: 2, P: []string{"nope"}, K: "kA0", G: g})
+	}
+	return acts
 }
